@@ -44,9 +44,19 @@ SigF22(pre, cx1, ev, res, post, cx2, pred) ==
   /\ ev.op = "RemoveFromFile" /\ res.t = "ok"
   /\ \E m \in 1..Len(pre.models) : pre.models[m].root = ev.p
 
+\* F26: copying / moving a non-identifiable container whose nested identifiable elements collide with existing paths
+\* (only the copied / moved element itself is renamed for uniqueness)
+SigF26(pre, cx1, ev, res, post, cx2, pred) ==
+  /\ ev.op \in {"Copy", "Move"} /\ res.t = "ok"
+  /\ ~P!TIdent(post, res.v)
+  /\ LET m == P!ModelOf(post, cx2, res.v)
+         sub == P!PSeqToSet(P!ODfs(post, res.v)) IN
+     m # 0 /\ \E a, b \in cx2.truth[m] : a[1] = b[1] /\ a[2] # b[2] /\ a[2] \in sub /\ b[2] \notin sub
+
 KFMatch(pre, cx1, ev, res, post, cx2, pred) ==
-  {id \in {"F7", "F21", "F22"} :
+  {id \in {"F7", "F21", "F22", "F26"} :
      CASE id = "F7" -> SigF7(pre, cx1, ev, res, post, cx2, pred)
        [] id = "F21" -> SigF21(pre, cx1, ev, res, post, cx2, pred)
-       [] id = "F22" -> SigF22(pre, cx1, ev, res, post, cx2, pred)}
+       [] id = "F22" -> SigF22(pre, cx1, ev, res, post, cx2, pred)
+       [] id = "F26" -> SigF26(pre, cx1, ev, res, post, cx2, pred)}
 =============================================================================
